@@ -350,6 +350,7 @@ int sim_spawn_thread(pthread_t *out, const pthread_attr_t *attr, void *(*fn)(voi
     t->pt = pt;
     if (out) *out = pt;
     epoch++;
+    sim_hist("!thread", "create %d", tid);
     return 0;
 }
 
